@@ -12,7 +12,9 @@ FUNCS = ["emboss::prelude::{UInt,Int,Bcd,Flag,Float}View::{Ok,IsComplete,Read,Un
 
 def main(args):
     def keep(n):
-        return not viewcheck.SAFETY.search(n)
+        # functional obligations, plus the runtime's own consistency checks (EMBOSS_CHECK asserts): an operation that
+        # aborts on a valid input does not deliver what the property promises (the other safety obligations belong to C04)
+        return not viewcheck.SAFETY.search(n) or ".trap:assert(" in n
     r = viewcheck.run("C02", args, ["UInt", "Int", "Bcd", "Flag", "Float", "Enum"], ["read"], keep=keep, enum_subset_in_quick=True, functions=FUNCS, selfcheck=True)
     if isinstance(r, int):
         return r
